@@ -89,8 +89,8 @@ def replay(spec):
                 if abs(tot[s][i] - ref[s][i]) > 1e-9:
                     log.append("parts sum to %r, original %r at slot %d" % (tot[s][i], ref[s][i], s))
     for name, obj, rf in [("queue", q, ref)] + others:
+        out = np.full(R, 99.0)               # one buffer reused for every read, as the simulators do
         for s in range(C + 1):
-            out = np.zeros(R)
             want_t = nqt + s * dt
             got_t = obj.py_get_next_queue_time()
             if abs(got_t - want_t) > 1e-9 * max(1.0, abs(want_t)):
